@@ -274,10 +274,7 @@ def missingRefused (st : Stored) (mode : Mode) (keys : List Nat) : Bool :=
 /-- by source frame: every requested number passes the translated per-number checks (`Gen.frameAdmitted`, T8f:
 positive, and not above the highest referenced frame number unless the caller asserts that missing frames are empty) -/
 def framesAdmitted (st : Stored) (assertMissing : Bool) (keys : List Nat) : Bool :=
-  keys.all fun k =>
-    match frameAdmitted (k : Int) assertMissing (listMax (st.frames.map (·.key)) : Int) with
-    | .ok _ => true
-    | .error _ => false
+  keys.all fun k => (frameAdmitted (k : Int) assertMissing (listMax (st.frames.map (·.key)) : Int)).isOk
 
 /-- the entry point refuses the requested stack values -/
 def entryRefuses (st : Stored) (mode : Mode) (assertMissing : Bool) (keys : List Nat) : Bool :=
